@@ -36,11 +36,12 @@ theorem fact_retry_backoff :
     Facts.C14.retryMaxDelayNs = 86400000000000 := by decide
 
 /-- Notify reschedules the failed first notification unless the error is an EventFatal (errors.As), i.e. also when
-    notifyNow wrapped its own storage error in retry.Unrecoverable (three sites: job read, EventFatal, write-back) -/
+    notifyNow hands back a storage error of its own. Since the repair only the EventFatal is wrapped in
+    retry.Unrecoverable (one site): a storage error of the notifier itself no longer ends a running retry loop. -/
 theorem fact_notify_drops_only_event_fatal :
     Facts.C14.notifyRetryCondition = ["err != nil", "!errors.As(err, new(EventFatal))"] ∧
-    Facts.C14.notifyNowUnrecoverable = ["retry.Unrecoverable(err)", "retry.Unrecoverable(err)", "retry.Unrecoverable(err)"] :=
-  ⟨rfl, rfl⟩
+    Facts.C14.notifyNowUnrecoverable = ["retry.Unrecoverable(err)"] ∧ Facts.C14.storageFaultEndsLoop = false :=
+  ⟨rfl, rfl, rfl⟩
 
 theorem fact_notifyNow_retries :
     Facts.C14.notifyNowRetriesWrites = ["dbEvent.Retries = maxRetries", "dbEvent.Retries++"] := by decide
@@ -300,7 +301,7 @@ theorem realSubs_are_the_registrations :
 def wCfg (skip : Bool) (beh : Nat → Nat → Nat → Outcome) : Cfg :=
   { nSubs := 5, nRefs := 2, sel := selOf realSubs (fun _ => true) (fun _ => "application/vc+json"),
     phash := fun _ => 7, root := fun r => r == 0, beh := beh, maxRetries := 20, failedThreshold := 10, skipPresent := skip,
-    writeBackSkipsGone := true }
+    writeBackSkipsGone := true, storageFaultEndsLoop := false }
 
 def allDone : Nat → Nat → Nat → Outcome := fun _ _ _ => .done
 
@@ -460,6 +461,38 @@ theorem rescheduled_loop_exists (c : Cfg) (σ : St) (s r : Nat) (h : 1 < c.maxRe
     ∃ t, t ∈ (spawn c σ s r 0).running ∧ t.sub = s ∧ t.ref = r ∧ t.left = c.maxRetries - 1 := by
   obtain ⟨t, ht, a, b, d⟩ := spawn_mem (c := c) (σ := σ) (s := s) (r := r) (k := 0) (by omega)
   exact ⟨t, ht, a, b, by omega⟩
+
+/-- **a storage fault does not end a running retry loop** (code after the repair, `storageFaultEndsLoop = false`): the
+    attempt is spent, the loop goes on with one attempt less -/
+theorem loop_survives_storage_fault (c : Cfg) (hflag : c.storageFaultEndsLoop = false) (σ : St) (s r : Nat) (t : Task)
+    (ht : σ.running.find? (Task.isFor s r) = some t) (hleft : 1 < t.left)
+    (hres : (notifyNow c { σ with running := σ.running.erase t } s r).2 = .unrec) :
+    ∃ t', t' ∈ (fire c σ s r).running ∧ t'.sub = t.sub ∧ t'.ref = t.ref ∧ t'.left = t.left - 1 := by
+  unfold fire
+  rw [ht]
+  simp only
+  generalize notifyNow c { σ with running := σ.running.erase t } s r = p at hres
+  obtain ⟨σ', res⟩ := p
+  simp only at hres
+  subst hres
+  simp only [hflag, Bool.false_or]
+  have hnl : ¬ t.left ≤ 1 := by omega
+  simp only [hnl, if_false, decide_false, Bool.false_eq_true]
+  exact ⟨{ t with left := t.left - 1, n := t.n + 1 }, by simp, rfl, rfl, rfl⟩
+
+/-- **negation witness for the code before that repair** (`storageFaultEndsLoop = true`): the private subscriber (1) does
+    not complete transaction 0; its retry loop is running; one transient fault while reading the job ends the loop: no
+    loop, no pending notification, one recorded attempt - below the threshold, not listed by GetFailedEvents - until the
+    next restart. On the repaired code the loop is still there. -/
+def faultInLoop : Nat → Nat → Nat → Outcome := fun s _ k => if s = 1 ∧ k = 1 then .readFault else .notDone
+def faultInLoopOps : List Op := [.add { ref := 0 }, .afterCommit [0, 1, 2, 3, 4], .fire 1 0]
+
+theorem storage_fault_ended_loop_before_repair :
+    (run { wCfg true faultInLoop with storageFaultEndsLoop := true } init faultInLoopOps).running = [] ∧
+    (run { wCfg true faultInLoop with storageFaultEndsLoop := true } init faultInLoopOps).shelf 1 0 =
+      some { type := .tx, retries := 1, err := .incomplete } ∧
+    failedEvents (wCfg true faultInLoop) (run { wCfg true faultInLoop with storageFaultEndsLoop := true } init faultInLoopOps) 1 = [] ∧
+    ((run (wCfg true faultInLoop) init faultInLoopOps).running.map (·.left)) = [18] := by decide
 
 /-- **Run re-reads the shelf**: Run resumes its snapshot one job at a time; an event whose completion record landed while
     the loop was busy with an earlier job (its job is gone from the shelf: `Finished` by the payload handler or by the
